@@ -67,7 +67,14 @@ def show_diff(got, want, ctx=60):
         i, len(got), len(want), got[lo:i + ctx], want[lo:i + ctx])
 
 
-def evaluate(res, expected, check_protocol=True, signalled=False):
+def coloured(opts):
+    """True when the options ask for colour whatever stdout is (generated bodies never hold an ESC byte, so deleting the SGR
+    sequences of such a run gives back exactly what --color never prints)"""
+    opts = list(opts or [])
+    return any(opts[k] == "--color" and opts[k + 1] == "always" for k in range(len(opts) - 1))
+
+
+def evaluate(res, expected, check_protocol=True, signalled=False, opts=None):
     """Oracles over one run -> list of (class, detail)."""
     v = []
     tr = res.trace
@@ -85,8 +92,15 @@ def evaluate(res, expected, check_protocol=True, signalled=False):
     if res.crashed() or b"panicked at" in res.stderr:
         v.append(("crash", "exit status %s; stderr tail: %r" % (res.rc, res.stderr[-600:])))
         return v
-    if expected is not None and res.stdout != expected:
-        v.append(("stdout_differs_from_model", show_diff(res.stdout, expected)))
+    if expected is not None:
+        got = res.stdout
+        if coloured(opts):
+            import decor
+            got = decor.strip_colour(got)
+            if got and got == res.stdout:
+                v.append(("colour_always_emits_no_escape", "no SGR sequence in %d bytes of output" % len(got)))
+        if got != expected:
+            v.append(("stdout_differs_from_model", show_diff(got, expected)))
     if check_protocol and tr is not None:
         for (inv, detail) in tracecheck.check_protocol(tr, signalled):
             v.append(("protocol_" + inv, detail))
@@ -108,7 +122,7 @@ def classes_of(rp, check_protocol=True):
     plan = core.Plan.from_json(rp["plan"])
     expected = None if rp.get("no_model") else merge.model_stdout(sources, base64.b64decode(rp.get("separator_b64", "")))
     _, res = run_once(sources, rp["opts"], plan, rp.get("tz", "UTC"))
-    cl = set(c for (c, _) in evaluate(res, expected, check_protocol))
+    cl = set(c for (c, _) in evaluate(res, expected, check_protocol, opts=rp["opts"]))
     if rp.get("reference_stdout_b64") is not None:
         if res.stdout != base64.b64decode(rp["reference_stdout_b64"]):
             cl.add("stdout_differs_across_schedules")
